@@ -407,7 +407,7 @@ def run_case(i, case, mod, plain):
             obs["message"] = str(err)
         except RuntimeError as err:
             obs["outcome"] = 1 if "Failed to recompute" in str(err) else 4
-            obs["message"] = str(err)[:300]
+            obs["message"] = str(err)        # in full: the determinism check normalises the location before comparing
             obs["cause"] = type(err.__cause__).__name__ if err.__cause__ is not None else None
         except Exception as err:  # noqa: BLE001
             obs["outcome"] = 3 if pyexc == type(err).__name__ else 4
